@@ -25,6 +25,7 @@ Spec verdicts (`specfail <class>`), all judged with the independent delimiter an
   created-primary-without-crc                   a created primary block has CRC type 0 / no CRC item
   serialised-crc-mismatch                       the serialiser wrote a value ≠ CRC of the block with zeroed field
   serialised-crc-wrong                          the same, for a good bundle serialised directly after a failed parse
+  serialised-crc-mismatch-after-<what>          the same, for a bundle serialised again after fields of it were assigned
   valid-crc-rejected                            "invalid CRC value" for a generated bundle whose CRCs all match the Spec
   valid-crc-rejected-after-failed-parse         the same, directly after a failed parse
   accepted-crc-mismatch                         Go accepted although a block's CRC does not match its received bytes
@@ -189,6 +190,21 @@ def handle (st : St) (line : String) : St × String :=
         else if go == "crc" then (st', s!"specfail valid-crc-rejected statuses={sts.map showStatus}")
         else if go != "accept" then (st', s!"diff generated-bundle-rejected go={go} model={showVerdict (parseBundleWith crcCalcFast bs)}")
         else (st', judgeParsed go bs (fun _ => none) none)
+    | none => (st, "skip parse")
+  | ["reser", what, h, go] =>
+    -- a bundle serialised again after `what` happened to it (fields assigned directly after a first
+    -- serialisation / after parsing): the serialiser clause — every CRC written is the CRC of the bytes written
+    match parseHex h with
+    | some bs =>
+      let oi := analyse h bs
+      match oi.blocks with
+      | none => (st, s!"specfail serialised-crc-mismatch-after-{what} undelimitable")
+      | some bl =>
+        let sts := statuses bl
+        if sts.any isBad then (st, s!"specfail serialised-crc-mismatch-after-{what} statuses={sts.map showStatus}")
+        else if go == "crc" then (st, s!"specfail valid-crc-rejected statuses={sts.map showStatus}")
+        else if go != "accept" then (st, s!"diff reserialised-bundle-rejected go={go} model={showVerdict (parseBundleWith crcCalcFast bs)}")
+        else (st, "ok")
     | none => (st, "skip parse")
   | ["mut", h, off, x, go] =>
     match off.toNat?, parseHex x with
